@@ -9,7 +9,7 @@
 From Coq Require Import List NArith Bool Lia PeanoNat.
 From Coq.Strings Require Import Byte.
 From GM Require Import Codec.Packet Topic.MatchSpec Broker.Backend Broker.BackendSpec
-  Broker.BackendProofs Broker.BackendProofsPublish Broker.BackendProofsSteps Broker.BackendProofsHist.
+  Broker.BackendProofs Broker.BackendProofsPublish Broker.BackendProofsSteps Broker.BackendOwn Broker.BackendProofsHist.
 Import ListNotations.
 Open Scope N_scope.
 
@@ -29,8 +29,7 @@ Definition enq_event (k : skey) (temp : bool) (st : state) (o : op) (r : result)
              negb (is_full (st_cap st) (queue temp s)) &&
              match r with
              | ROk => true
-             | RQueueFull => mem_key k got        (* the call was cut short: only the sessions it had reached *)
-             | _ => false
+             | _ => false                          (* refused (ErrQueueFull) or waiting: nothing is enqueued *)
              end
           then [Msg (m_topic m) (m_payload m) (m_qos m) false] else []
       | OSubscribe c subs batches =>
@@ -147,7 +146,7 @@ Proof.
   - unfold unsubscribe. destruct (session_of st c) as [[k s]|] eqn:S; [|exact T]. cbn [snd].
     revert T. apply tempsok_frame; try (destruct k; reflexivity).
     intros x; apply temps_put. rewrite (session_of_get _ _ _ _ S); discriminate.
-  - rewrite publish_unfold. destruct (negb _ && _); [exact T|]. cbn [snd]. revert T. apply tempsok_frame; try reflexivity.
+  - rewrite publish_unfold. destruct (pub_stuck _ _ _); [exact T|]. cbn [snd]. revert T. apply tempsok_frame; try reflexivity.
     intros x Hx. cbn [st_temps].
     rewrite (alookup_map N.eqb N.eqb_eq (fun key s => deliver (pub_err st c m) got (KTemp key) (classify st c m s) m s)).
     rewrite Hx; reflexivity.
@@ -177,44 +176,44 @@ Lemma eqb_true_eq a b : Bool.eqb a b = true -> a = b.
 Proof. apply Bool.eqb_prop. Qed.
 
 Lemma publish_queue st c m got temp k s :
-  wf st -> name_ok (m_topic m) = true -> get_session st k = Some s ->
+  wf st -> OwnOk st -> name_ok (m_topic m) = true -> get_session st k = Some s ->
   let (r, st') := publish st c m got in
   exists s', get_session st' k = Some s' /\
     queue temp s' = queue temp s ++ enq_event k temp st (OPublish c m got) r.
 Proof.
-  intros W Hn G. destruct (publish st c m got) as [r st'] eqn:E.
+  intros W O Hn G. destruct (publish st c m got) as [r st'] eqn:E.
   assert (Est : st' = snd (publish st c m got)) by (rewrite E; reflexivity).
   pose proof (get_sessions st k s G) as Hin.
   unfold enq_event. rewrite G.
-  rewrite publish_unfold in E. destruct (negb (pub_err st c m) && pub_blk st c m) eqn:Hnb.
-  - injection E as <- <-. exists s. split; [exact G|]. rewrite !andb_false_r. rewrite app_nil_r. reflexivity.
-  - injection E as <- _. rewrite Est, (get_session_published st c m got k Hnb), G. cbn [option_map].
-    eexists; split; [reflexivity|].
-    rewrite (classify_cases st c m s Hn). rewrite queue_of_queue.
+  rewrite publish_unfold in E. destruct (pub_stuck st c m) eqn:Hnb.
+  - injection E as <- <-. exists s. split; [exact G|].
+    destruct (own_refused st c m); rewrite !andb_false_r; rewrite app_nil_r; reflexivity.
+  - unfold pub_stuck in Hnb. apply orb_false_iff in Hnb as [R Hb].
+    pose proof (no_midway st c m W O R) as Herr. rewrite Herr in *. cbn [negb andb] in Hb.
+    assert (Hnb : pub_stuck st c m = false) by (unfold pub_stuck; rewrite R, Herr, Hb; reflexivity).
+    injection E as <- _. rewrite Est, (get_session_published st c m got k Hnb), G, Herr. cbn [option_map].
+    eexists; split; [reflexivity|]. rewrite andb_true_r.
+    pose proof (pub_err_false_session st c m k s Herr Hin) as He.
+    pose proof (pub_blk_false_session st c m k s Hb Hin) as Hbl.
+    rewrite (classify_cases st c m s Hn) in *. rewrite queue_of_queue in *.
     destruct (Bool.eqb (use_temp m) temp) eqn:ET.
     + apply eqb_true_eq in ET. subst temp. cbn [andb].
       destruct (has_match (s_subs s) (m_topic m)) eqn:HM; [|cbn [deliver andb]; rewrite app_nil_r; reflexivity].
       cbn [andb].
-      assert (NE : pub_err st c m = false -> is_err (classify st c m s) = false /\ is_block (classify st c m s) = false).
-      { intros Herr. rewrite Herr in Hnb. cbn in Hnb.
-        split; [exact (pub_err_false_session st c m k s Herr Hin)|exact (pub_blk_false_session st c m k s Hnb Hin)]. }
-      rewrite (classify_cases st c m s Hn), HM, queue_of_queue in NE.
-      destruct (is_full (st_cap st) (queue (use_temp m) s)) eqn:F; cbn [negb andb].
+      destruct (is_full (st_cap st) (queue (use_temp m) s)) eqn:F; cbn [negb].
       * (* no room: nothing is appended *)
         rewrite app_nil_r.
         destruct (s_act s) as [c'|]; [|reflexivity].
-        destruct (c' =? c); [destruct (pub_err st c m); reflexivity|].
-        destruct (mem_n c' (st_dying st)); destruct (pub_err st c m); reflexivity.
+        destruct (c' =? c); [destruct (mem_n c (st_dying st)); [reflexivity|discriminate]|].
+        destruct (mem_n c' (st_dying st)); [reflexivity|discriminate].
       * assert (A : match s_act s with
                     | Some c' => if c' =? c then AEnq else AEnq
                     | None => AEnq end = AEnq) by (destruct (s_act s) as [c'|]; [destruct (c' =? c)|]; reflexivity).
-        rewrite A. cbn [deliver]. destruct (pub_err st c m).
-        -- destruct (mem_key k got); [rewrite queue_enqueue, Bool.eqb_reflx; reflexivity|rewrite app_nil_r; reflexivity].
-        -- rewrite queue_enqueue, Bool.eqb_reflx; reflexivity.
+        rewrite A. cbn [deliver]. rewrite queue_enqueue, Bool.eqb_reflx; reflexivity.
     + cbn [andb]. rewrite app_nil_r.
       match goal with |- queue temp (deliver ?e got k ?a m s) = _ =>
         assert (Hd : deliver e got k a m s = s \/ deliver e got k a m s = enqueue m s)
-          by (unfold deliver; destruct a; auto; destruct e; auto; destruct (mem_key k got); auto);
+          by (unfold deliver; destruct a; auto);
         destruct Hd as [-> | ->]; [reflexivity|rewrite queue_enqueue, ET; reflexivity] end.
 Qed.
 
@@ -264,7 +263,7 @@ Ltac no_events G :=
   rewrite ?andb_false_r, ?app_nil_r; cbn [skipn]; rewrite ?app_nil_r; try reflexivity.
 
 Lemma queue_step st o temp k s :
-  wf st -> TempsOk st ->
+  wf st -> OwnOk st -> TempsOk st ->
   (match o with OPublish _ m _ => name_ok (m_topic m) = true | _ => True end) ->
   get_session st k = Some s ->
   let (r, st') := step st o in
@@ -273,7 +272,7 @@ Lemma queue_step st o temp k s :
     if reset_event k temp st o r then []
     else skipn (deq_count k temp st o r) (queue temp s) ++ enq_event k temp st o r.
 Proof.
-  intros W [T1 T2] Hn G.
+  intros W O [T1 T2] Hn G.
   destruct o as [c id clean|t|c|c subs b|c fs|c m got|c t|c|]; cbn [step].
   - (* Setup *)
     unfold setup. destruct (st_pending st) eqn:P; [intros s' G'; assert (s' = s) by congruence; subst; no_events G|].
@@ -334,7 +333,7 @@ Proof.
     + apply skey_eqb_eq in EK; subst k0. rewrite G in G0; injection G0 as <-. injection G' as <-. no_events G; try (destruct temp; reflexivity).
     + assert (s' = s) by congruence. subst. no_events G.
   - (* Publish *)
-    pose proof (publish_queue st c m got temp k s W Hn G) as X.
+    pose proof (publish_queue st c m got temp k s W O Hn G) as X.
     destruct (publish st c m got) as [r st']. destruct X as [s1 [G1 Q]]. intros s' G'.
     assert (s' = s1) by congruence. subst s1. rewrite Q.
     assert (R : reset_event k temp st (OPublish c m got) r = false).
@@ -422,26 +421,26 @@ Proof.
 Qed.
 
 Lemma expected_run k temp ops : forall st acc,
-  wf st -> TempsOk st -> names_ok ops = true ->
+  wf st -> Own st -> TempsOk st -> names_ok ops = true ->
   (forall s, get_session st k = Some s -> queue temp s = acc) ->
   match get_session (run_state st ops) k with
   | Some s => queue temp s = expected k temp (trace st ops) acc
   | None => True
   end.
 Proof.
-  unfold run_state. induction ops as [|o ops IH]; intros st acc W T N H; cbn [run trace expected snd].
+  unfold run_state. induction ops as [|o ops IH]; intros st acc W O T N H; cbn [run trace expected snd].
   - destruct (get_session st k) as [s|] eqn:G; [exact (H s eq_refl)|exact I].
   - cbn [names_ok forallb] in N. apply andb_true_iff in N as [N1 N2].
-    pose proof (wf_step st o W) as W1. pose proof (tempsok_step st o T) as T1.
+    pose proof (wf_step st o W) as W1. pose proof (tempsok_step st o T) as T1. pose proof (own_step st o O) as O1.
     pose proof (created_step st o k T) as Cr.
     assert (Hn : match o with OPublish _ m _ => name_ok (m_topic m) = true | _ => True end) by (destruct o; auto).
-    pose proof (fun s G => queue_step st o temp k s W T Hn G) as Qs.
+    pose proof (fun s G => queue_step st o temp k s W (own_ownok st O) T Hn G) as Qs.
     destruct (step st o) as [r st1]. cbn [snd] in *.
     specialize (IH st1 (match get_session st k, get_session st1 k with
                         | _, None => []
                         | None, Some _ => []
                         | Some _, Some _ => if reset_event k temp st o r then []
-                                            else skipn (deq_count k temp st o r) acc ++ enq_event k temp st o r end) W1 T1 N2).
+                                            else skipn (deq_count k temp st o r) acc ++ enq_event k temp st o r end) W1 O1 T1 N2).
     destruct (run st1 ops) as [rs st2]. cbn [snd] in *. cbn [expected]. apply IH.
     intros s1 G1. rewrite G1. destruct (get_session st k) as [s|] eqn:G.
     + rewrite (Qs s eq_refl s1 G1), (H s eq_refl). reflexivity.
@@ -456,7 +455,7 @@ Theorem delivery_log cap ops k temp :
   | None => True
   end.
 Proof.
-  intros N. apply expected_run; [apply wf_init|apply tempsok_init|exact N|].
+  intros N. apply expected_run; [apply wf_init|apply own_init|apply tempsok_init|exact N|].
   intros s G. destruct k; discriminate.
 Qed.
 
@@ -493,9 +492,9 @@ Definition delivery_ok (st : state) (o : op) (r : result) (st' : state) : bool :
    end).
 
 Theorem step_delivery_ok st o :
-  wf st -> TempsOk st -> let (r, st') := step st o in delivery_ok st o r st' = true.
+  wf st -> OwnOk st -> TempsOk st -> let (r, st') := step st o in delivery_ok st o r st' = true.
 Proof.
-  intros W T. destruct (step st o) as [r st'] eqn:E. unfold delivery_ok.
+  intros W O T. destruct (step st o) as [r st'] eqn:E. unfold delivery_ok.
   destruct (match o with OPublish _ m _ => negb (name_ok (m_topic m)) | _ => false end) eqn:Hn0; [reflexivity|].
   cbn [orb].
   assert (Hn : match o with OPublish _ m _ => name_ok (m_topic m) = true | _ => True end).
@@ -505,7 +504,7 @@ Proof.
   - apply forallb_forall. intros [k s'] Hin. cbn [fst snd].
     pose proof (sessions_get st' k s' W' Hin) as G'.
     destruct (get_session st k) as [s|] eqn:G.
-    + pose proof (queue_step st o true k s W T Hn G) as X1. pose proof (queue_step st o false k s W T Hn G) as X2.
+    + pose proof (queue_step st o true k s W O T Hn G) as X1. pose proof (queue_step st o false k s W O T Hn G) as X2.
       rewrite E in X1, X2. cbn [forallb]. rewrite (X1 s' G'), (X2 s' G'), !msgs_eqb_refl. reflexivity.
     + pose proof (created_step st o k T G s') as X. rewrite E in X. destruct (X G') as [-> ->]. reflexivity.
   - destruct o as [c id clean|t|c|c subs b|c fs|c m got|c t|c|]; try (destruct r; reflexivity).
@@ -523,12 +522,13 @@ Qed.
 Theorem delivery_along cap ops :
   Forall (fun x => let '(st, o, r, st') := x in delivery_ok st o r st' = true) (trace (init cap) ops).
 Proof.
-  assert (G : forall ops st, wf st -> TempsOk st ->
+  assert (G : forall ops st, wf st -> Own st -> TempsOk st ->
               Forall (fun x => let '(st, o, r, st') := x in delivery_ok st o r st' = true) (trace st ops)).
-  { clear. induction ops as [|o ops IH]; intros st W T; cbn [trace]; [constructor|].
-    pose proof (step_delivery_ok st o W T) as X. pose proof (wf_step st o W) as W1. pose proof (tempsok_step st o T) as T1.
+  { clear. induction ops as [|o ops IH]; intros st W O T; cbn [trace]; [constructor|].
+    pose proof (step_delivery_ok st o W (own_ownok st O) T) as X. pose proof (wf_step st o W) as W1.
+    pose proof (tempsok_step st o T) as T1. pose proof (own_step st o O) as O1.
     destruct (step st o) as [r st1]. cbn [snd] in *. constructor; [exact X|apply IH; assumption]. }
-  apply G; [apply wf_init|apply tempsok_init].
+  apply G; [apply wf_init|apply own_init|apply tempsok_init].
 Qed.
 
 (* the two facts behind it, on the model functions themselves: Unsubscribe changes no queue; Dequeue returns the
